@@ -426,7 +426,8 @@ FORMS = {
     "C02": "the chunk in C order, Fortran order, as a transposed view, as a window of a larger array, big-endian, read-only",
     "C04": "payloads as bytes, bytearray, memoryview and the typed buffer of a uint16 array",
     "C05": "payloads as bytes, bytearray, memoryview and the typed buffer of a uint16 array",
-    "C06": "the method named or selected as `auto` through the info's type, with the same options",
+    "C06": "the method named or selected as `auto` through the info's type, with the same options; one downscaler "
+           "object reused for later pyramids of other data types, against a fresh reference object",
     "C07": "the method named or selected as `auto` through the info's type, with the same options",
     "C09": "chunk coordinates as Python ints and as NumPy scalars of every integer type that holds them",
     "C10": "the chunk size as a tuple, the JSON info's list, NumPy integers or a NumPy array",
